@@ -283,3 +283,18 @@ func vrWorldDir(dir string) {
 		_ = os.Chmod(d, 0o755)
 	}
 }
+
+func vrModeOf(s string) OverwriteBehavior {
+	switch s {
+	case "always":
+		return OverwriteAlways
+	case "if-changed":
+		return OverwriteIfChanged
+	case "if-newer":
+		return OverwriteIfNewer
+	case "never":
+		return OverwriteNever
+	}
+	panic("mode " + s)
+}
+
